@@ -105,10 +105,11 @@ fn run_case(_kind: &str, idx: u64, rng: &mut Rng, mon: &mut Mon, _tier: Tier) {
     if designed_base {
         let b = branches[rng.usize(branches.len())];
         let target = if rng.bool(0.6) { rs_opw_kinematics::kinematic_traits::J_TOOL } else { 1 + rng.usize(5) };
-        let gap = rng.range(-0.04, -0.015);
+        let gap = rng.range(-0.04, 0.03);
         cell.design_base(rng, &b, target, gap);
         mon.count("cells_with_a_designed_base");
     }
+    let cross_check_all = rng.bool(0.5);
     let ctor = rng.usize(3);
     let first_only = rng.bool(0.5);
     // (a robot whose checks are switched off reports nothing as colliding and therefore filters nothing)
@@ -212,7 +213,7 @@ fn run_case(_kind: &str, idx: u64, rng: &mut Rng, mon: &mut Mon, _tier: Tier) {
         let flags: Vec<bool> = under.iter().map(|s| robot.collides(s)).collect();
         // "with the body meshes placed at the same link poses": where the brute-force oracle (meshes placed by the
         // reference chain) is unambiguous about an answer, the robot's verdict on it must agree
-        if designed_base && robot.body.safety.mode != CheckMode::NoCheck {
+        if (designed_base || cross_check_all) && robot.body.safety.mode != CheckMode::NoCheck {
             for (s, reported) in under.iter().zip(flags.iter()) {
                 let o = cell.oracle(s, &cell.safety);
                 let colliding = o.set(Verdict::Colliding);
